@@ -934,3 +934,6 @@ m('C13', '_set_nf_re: float() of a one-entry array (defect F26)', SURV,
 m('C10', 'point source: linear fraction not clamped below the first centre (defect F27)', FIELDS,
   "                rc = max(0.0, (csrc-cc[ic])/(cc[ic1]-cc[ic]))", "                rc = (csrc-cc[ic])/(cc[ic1]-cc[ic])",
   'C10.PV.linear')
+m('C10', 'min_max_ind: index of the last node not limited (defect F28)', FIELDS,
+  "        return [min(vector.size-2, imin), min(vector.size-2, imax)]", "        return [imin, imax]",
+  'C10.DV.clipping')
